@@ -8,6 +8,9 @@ PAGE = os.sysconf("SC_PAGE_SIZE")
 HDR = 17            # two psize header words + the unused slot: segment size = capacity + 17
 # lengths no capacity can hold: around the 32-bit, int and 33-bit borders (caller memory is reserved, never touched)
 HUGE = [2 ** 31 - 1, 2 ** 31, 2 ** 31 + 1, 2 ** 32 - 1, 2 ** 32, 2 ** 32 + 1, 2 ** 32 + 7, 2 ** 33 + 3, 2 ** 36]
+# lengths nobody can reserve: offered from a one-byte source (`wx`), they must be refused before anything is read;
+# 2^64 - k for small k makes `used + len` wrap when the buffer holds k or more bytes
+XHUGE = [2 ** 64 - 1, 2 ** 64 - 2, 2 ** 64 - 5, 2 ** 64 - 10, 2 ** 64 - 64, 2 ** 64 - 4096, 2 ** 63, 2 ** 63 - 1, 2 ** 63 + 1, 2 ** 48, 2 ** 32 + 1]
 
 
 def hexbytes(rng, n, ctr=[0]):
@@ -57,6 +60,7 @@ def gen_case(rng, chk, nops, unequal):
             n = min(n, 70000)
             if not unequal and rng.random() < 0.06:      # (not on the corrupted positions of finding F6: the real copy would run away)
                 ops.append("wz %d %d" % (h, rng.choice(HUGE)))      # can never fit: 0, nothing appended
+                ops.append("wx %d %d" % (h, rng.choice(XHUGE)))
                 chk.bump("write-huge-length")
             else:
                 ops.append("w %d %s" % (h, hexbytes(rng, n)))
@@ -144,6 +148,8 @@ DIRECTED = [
     ["new 0 8", "w 0 0102030405", "new 1 8", "close 1", "own 0", "close 0", "pos", "new 2 3", "free 2", "used 2", "r 2 9", "w 2 0a0b0c", "w 2 0d", "r 2 2", "pos"],
     ["new 0 8", "w 0 0102030405", "new 1 0", "r 1 2", "close 1", "close 0", "pos", "new 1 20", "free 1", "r 1 30", "w 1 0708", "new 0 0", "r 0 1", "pos"],
     # lengths of 2^31 … 2^36 on a small and on a full buffer
+    ["new 0 100", "w 0 0102030405060708090a"] + ["wx 0 %d" % n for n in XHUGE] + ["pos", "used 0", "r 0 100", "pos"] + ["wx 0 %d" % n for n in XHUGE[:4]] + ["pos"],
+    ["new 0 7", "w 0 010203", "r 0 2", "w 0 0405060708"] + ["wx 0 %d" % (2 ** 64 - k) for k in range(1, 9)] + ["pos", "r 0 7", "pos"],
     ["new 0 5"] + ["wz 0 %d" % n for n in HUGE] + ["pos", "w 0 0102030405", "pos"] + ["wz 0 %d" % n for n in HUGE[:3]] + ["r 0 %d" % HUGE[5], "pos", "w 0 ff00ff", "r 0 %d" % HUGE[1], "pos"],
     # a segment that ends exactly on a page border: fill, wrap, clear
     ["new 0 %d" % (PAGE - HDR), "free 0", "w 0 " + "ab" * (PAGE - HDR), "pos", "r 0 100", "w 0 " + "cd" * 100, "pos", "clr 0", "pos", "free 0", "new 1 %d" % PAGE, "clr 1", "free 1", "pos"],
